@@ -1,6 +1,8 @@
 import CJ.Drv.Loop
-/-! Driver for C04 (stub until the models are written). -/
+import CJ.Drv.ConnHandler
+/-! Driver for C04: the connection-handler model (`conn|…` lines). -/
 open CJ.Drv
 
 def main : IO Unit := runDriver fun
+  | "conn" :: args => ConnHandler.handle args
   | _ => none
